@@ -43,7 +43,12 @@ PROFILES = {
     'C11': [(['m08'], FX, 300, 3000, None),
             (['m08'], dict(effects=0.2, enqueue=0.2, nops=80, stop=0.2), 60, 600, None)],
     'C12': [(['m01', 'm02', 'm03', 'm05', 'm06', 'm07', 'm11', 'm17'], FAIL, 120, 1200, None),
-            (['m04', 'm08', 'm10'], FAIL, 60, 600, None)],
+            (['m04', 'm08', 'm10'], FAIL, 60, 600, None),
+            # 'the active state afterwards is the one the policy prescribes for the phase of the throw': the three
+            # non-default active-state-switch policies (builds shared with C19)
+            (['m01', 'm03', 'm10'], FAIL, 40, 400, ['b', 'b11', 'mf'], 1),
+            (['m01', 'm03', 'm10'], FAIL, 40, 400, ['b', 'b11', 'mf'], 2),
+            (['m01', 'm03', 'm10'], FAIL, 40, 400, ['b', 'b11', 'mf'], 3)],
     'C18': [(['m09'], PLAIN, 400, 4000, None),
             (['m09'], FXL, 150, 1500, None)],
 }
@@ -107,11 +112,12 @@ def run_model_check(prop, tier, seed, profiles=None, extra_filter=None):
     profiles = list(profiles or PROFILES[prop]) + gen_profiles(prop, tier, seed)
     # build everything first
     hs = {}
-    for machines, kw, nq, nt, cfgs in profiles:
+    profiles = [tuple(p) + (0,) * (6 - len(p)) for p in profiles]      # optional 6th field: active-state-switch policy
+    for machines, kw, nq, nt, cfgs, sw in profiles:
         for m in machines:
-            key = (m, tuple(cfgs) if cfgs else None)
+            key = (m, tuple(cfgs) if cfgs else None, sw)
             if key not in hs:
-                hs[key] = engine.Harness(m, cfgs)
+                hs[key] = engine.Harness(m, cfgs, switch=sw)
     errs = engine.build_harnesses(list(hs.values()))
     if errs:
         print('HARNESS build failure:\n' + '\n'.join(errs)[:4000])
@@ -123,10 +129,10 @@ def run_model_check(prop, tier, seed, profiles=None, extra_filter=None):
     counts = {'records': 0, 'steps': 0, 'transitions': 0, 'ops': 0}
     per_machine = {}
     harness_problems = []
-    for machines, kw, nq, nt, cfgs in profiles:
+    for machines, kw, nq, nt, cfgs, sw in profiles:
         n = nq if tier == 'quick' else nt
         for m in machines:
-            h = hs[(m, tuple(cfgs) if cfgs else None)]
+            h = hs[(m, tuple(cfgs) if cfgs else None, sw)]
             scripts = scripts_for(h, seed, n, kw)
             res = run.run_matrix(h.bins, scripts)
             verdicts = engine.accept_all(h, res)
